@@ -171,11 +171,11 @@ def main(tier: str) -> int:
                 draws = [int(x) for x in rs_int.randint(0, n, size=200)]
                 add({"op": "sample_norepl", "draws": draws, "k": t}, ("tour_sample", {"fitness": fit, "t": t, "seed": s}, win))
         elif kind == 1:  # proportional / rank sampling (one index)
-            w = [rng.choice([0, 0, 1, 2, 3]) for _ in range(n)] if s % 3 else [rng.choice([1, 1, 2, 5]) for _ in range(n)]   # every third: all weights positive
+            w = [rng.choice([0, 0, 1, 2, 3]) for _ in range(n)] if (s // 6) % 3 else [rng.choice([1, 1, 2, 5]) for _ in range(n)]   # every third: all weights positive
             if sum(w) == 0:
                 w[rng.randrange(n)] = 1
             numba_seed(s)
-            fn = proportional_selection if s % 2 == 1 else rank_selection
+            fn = proportional_selection if (s // 6) % 2 == 1 else rank_selection
             idx = int(fn(np.array(w, dtype=np.float64), np.array(w, dtype=np.float64), np.int64(0), np.int64(1))[0])
             chk.count("weighted")
             if not (0 <= idx < n and w[idx] > 0):
